@@ -3,8 +3,8 @@ bounds.  Everything a check claims is derived from this table and from what Kani
 
 # unwind rules: (regex on the pretty function name, loop index, bound)
 STORE_RULES = [
-    (r"^storage::bitcask::populate_keydir_with_(data|hint)file::<[^>]*>$", 0, 5),
-    (r"^storage::bitcask::rebuild_storage::<[^>]*>$", 0, 6),
+    (r"^storage::bitcask::populate_keydir_with_(data|hint)file::<[^>]*>$", 0, 6),
+    (r"^storage::bitcask::rebuild_storage::<[^>]*>$", 0, 10),
 ]
 
 
@@ -59,47 +59,28 @@ PROPS = {
     ),
     "C08": dict(
         crate="net",
-        title="RESP encoding and decoding round-trip, independent of stream chunking (decoder side; encoder validated natively)",
+        title="RESP encoding and decoding round-trip, independent of stream chunking (REDUCED: decoder side, bulk strings / null / arrays)",
         harnesses=[
-            H("c08_null", timeout=600, rules=REC_RULES),
-            H("c08_simple_0", timeout=900, rules=REC_RULES),
-            H("c08_simple_2", timeout=900, rules=REC_RULES),
-            H("c08_error_3", timeout=900, rules=REC_RULES),
-            H("c08_bulk_0", timeout=900, rules=REC_RULES),
-            H("c08_bulk_2", timeout=900, rules=REC_RULES),
-            H("c08_bulk_4", timeout=900, rules=REC_RULES),
-            H("c08_integer_1", timeout=900, rules=REC_RULES),
-            H("c08_integer_4", timeout=900, rules=REC_RULES),
-            H("c08_integer_7", timeout=1200, rules=REC_RULES),
-            H("c08_integer_limits", timeout=1200, rules=REC_RULES, covers=["i64::MIN round-trips", "i64::MAX round-trips"]),
-            H("c08_array_bulk2", timeout=1500, rules=REC_RULES),
-            H("c08_array_mixed", timeout=1500, rules=REC_RULES),
+            H("c08_null", timeout=600, rules=REC_RULES + DROP_RULES),
+            H("c08_bulk_0", timeout=900, rules=REC_RULES + DROP_RULES),
+            H("c08_bulk_2", timeout=900, rules=REC_RULES + DROP_RULES),
+            H("c08_bulk_4", timeout=900, rules=REC_RULES + DROP_RULES),
+            H("c08_array_bulk2", timeout=1500, rules=REC_RULES + DROP_RULES),
+            H("c08_array_mixed", timeout=1500, rules=REC_RULES + DROP_RULES),
+            H("c08_array_empty", timeout=900, rules=REC_RULES + DROP_RULES),
+            H("c08_array_short_elems2", timeout=1500, rules=REC_RULES + DROP_RULES),
+            H("c08_array_short_elems3", timeout=1500, rules=REC_RULES + DROP_RULES),
         ],
         bounds={
-            "frames": "SimpleString/Error of 0,2,3 symbolic ASCII bytes without CR/LF; BulkString of 0,2,4 arbitrary symbolic bytes; Null; Integer as canonical digit string of 1,4,7 symbolic digits with symbolic sign, plus sign x last digit around both i64 limits; arrays [bulk(1),bulk(2)], [int,null,simple], []",
-            "stream": "(1) the encoding followed by 3 SYMBOLIC bytes: check accepts exactly the encoding's length and parse returns the frame at that position; (2) every strict prefix of >= 1 byte is Incomplete (cut points enumerated in the harness; not for arrays, see DESIGN.md 0.2/7; the empty prefix is c07_small_readers)",
-            "outside": "the encoder itself (Connection::write_frame: async/tokio; the reference encoder of the harness is compared natively with it, not solver-decided); Connection::read_frame's loop and its EOF distinction; prefixes of arrays; non-ASCII simple strings; longer payloads; nested arrays (write_frame refuses them)",
+            "frames": "BulkString of 0,2,4 arbitrary SYMBOLIC bytes (CR, LF, NUL included); Null; arrays: [bulk(1 symbolic byte), bulk(2 symbolic bytes)] (the shape of every request), [:7, $-1, +q], [], [+, :7], [+, -, :7] (elements of minimal length)",
+            "stream": "(1a) the encoding alone at the end of the buffer and (1b) followed by 3 SYMBOLIC bytes: check accepts exactly the encoding's length and parse returns the frame at that position; (2) every strict prefix of >= 1 byte of a non-array frame is Incomplete (cut points enumerated in the harness; the empty prefix is c07_small_readers)",
+            "outside": "simple strings, errors and integers with symbolic contents at whole-function level (c08_simple_*, c08_integer_* are written but do not finish in 10 min: error paths of line/number readers send niche-encoded Results through `?`, DESIGN.md 0.2/7) - their readers are decided at leaf level under C07 (get_line, get_integer exactness); prefixes of arrays; the encoder (Connection::write_frame: async/tokio); Connection::read_frame's loop and its EOF distinction; longer payloads; nested arrays",
         },
         assumptions=NET_STUBS + [
             "bytes::{Bytes,Buf} are the inline-array model of models/bytes",
-            "the reference encoder of the harness equals Connection::write_frame (trusted base; checked natively by the repository's own write_frame test cases against the same byte strings)",
-            "recursion of Frame::check/parse unwound 3 times (the unwinding assertion proves deeper recursion unreachable on these inputs)",
+            "the reference encoder of the harness equals Connection::write_frame (trusted base; the same byte strings as the repository's own write_frame test cases)",
+            "recursion of Frame::check/parse and of Frame's drop glue unwound 3 times (unwinding assertions prove deeper recursion unreachable on these inputs)",
         ],
-    ),
-    "C06": dict(
-        crate="net",
-        title="Over the network SET/GET/DEL answer exactly as the map model, in order (REDUCED: command gate only)",
-        harnesses=[
-            H("c06_gate", timeout=1800, rules=DROP_RULES, covers=["a SET passed the gate", "a DEL passed the gate", "a non-UTF-8 key was refused"]),
-            H("c06_decode_get", timeout=1800, rules=REC_RULES + DROP_RULES),
-            H("c06_decode_set", timeout=1800, rules=REC_RULES + DROP_RULES),
-            H("c06_decode_del2", timeout=1800, rules=REC_RULES + DROP_RULES),
-        ],
-        bounds={
-            "gate": "Command::try_from over an array of <= 3 elements (bulk strings of <= 3 arbitrary bytes or a non-bulk element) or a non-array frame: Ok ONLY for exact upper-case name, exact arity, UTF-8 keys",
-            "outside": "request decoding from bytes (needs the whole Frame::check/parse: does not fit, DESIGN.md 0.2/7), one-reply-per-request ordering, the reply computed from the store (DEL's count), flush behaviour, segmentation, pipelining: async code over tokio (Connection, Handler::run, Set/Get/Del::apply) cannot be encoded",
-        },
-        assumptions=NET_STUBS + ["bytes model"],
     ),
 }
 
@@ -112,7 +93,7 @@ STORE_ASSUME = [
     "keys: pool of 2 concrete 1-byte keys; values: 1 symbolic byte; timestamps concrete 0; file ids < 8; files <= 32 bytes",
 ]
 
-SHAPES_NOTE = "operation shapes are concrete and enumerated (DESIGN.md section 9 (b)): S1 tombstone-on-disk + rollover on every write + reopen; S2 overwrite/delete/absent-delete/merge of the active file/write/reopen via hint; S3 older live file + newer tombstone-only file, merge selected by fragmentation 0.4, reopen; S4 merge output with hint on disk + older file, merge rolling over into several outputs, reopen; S5 selection by dead bytes, two merges, reopen; S6 older all-dead file + newer file with the tombstone selected by dead bytes, reopen. Symbolic within a shape: every value byte"
+SHAPES_NOTE = "operation shapes are concrete and enumerated (DESIGN.md section 9 (b)): S1 tombstone-on-disk + rollover on every write + reopen; S2 overwrite/delete/absent-delete/merge of the active file/write/reopen via hint; S3 older live file + newer tombstone-only file, merge selected by fragmentation 0.4, reopen; S4 merge output with hint on disk + older file, merge rolling over into several outputs, reopen; S5 selection by dead bytes, two merges, reopen; S7 empty directory, rollover on every write, put a / put b each read back at once; S6 older all-dead file + newer file with the tombstone selected by dead bytes, reopen. Symbolic within a shape: every value byte"
 
 
 # L level: the codec contract that every store-level harness assumes, decided for the REAL bincode on the
@@ -131,7 +112,7 @@ def _shapes(prefix, which, tier_of=lambda i: "quick", timeout=1500, covers=None)
 
 PROPS.update({
     "C01": dict(crate="store", title="The store behaves as a key-value map for every operation sequence",
-                harnesses=_shapes("c01", [1, 2, 3, 4, 5, 6], tier_of=lambda i: "quick" if i in (1, 2, 3) else "thorough", covers={1: ["three rollovers"], 2: ["the merge wrote a hint entry"]}) + CODEC_CONTRACT,
+                harnesses=_shapes("c01", [1, 2, 3, 4, 5, 6, 7], tier_of=lambda i: "quick" if i in (1, 2, 3, 7) else "thorough", covers={1: ["three rollovers"], 2: ["the merge wrote a hint entry"]}) + CODEC_CONTRACT,
                 bounds={"shapes": SHAPES_NOTE, "outside": "longer histories, more keys, longer keys/values, entries larger than the write buffer, real DashMap/LRU/mmap implementations, real bincode layout"},
                 assumptions=STORE_ASSUME),
     "C02": dict(crate="store", title="Closing and reopening a store preserves exactly its contents, deletions included",
@@ -144,10 +125,12 @@ PROPS.update({
                 bounds={"shapes": SHAPES_NOTE + "; merges selected by: everything (S2, S4), fragmentation > 0.4 (S3), dead bytes > 0 (S5), followed by reads and by a reopen", "outside": "thresholds are concrete per shape (a symbolic threshold makes the selected set symbolic and the run intractable - measured)"},
                 assumptions=STORE_ASSUME),
     "C12": dict(crate="store", title="Hint files are only an accelerator: recovery with or without them agrees",
-                harnesses=[H("c12_shape_2", timeout=1500, rules=STORE_RULES, covers=["a non-empty hint file existed"]),
-                           H("c12_shape_4", timeout=1500, rules=STORE_RULES, covers=["a non-empty hint file existed"]),
-                           H("c12_shape_5", timeout=1500, rules=STORE_RULES, covers=["a non-empty hint file existed"])],
-                bounds={"shapes": SHAPES_NOTE + "; after the shape the index is rebuilt twice by the real rebuild_storage, as is and with every *.hint unlinked, and both pool keys are resolved through both", "outside": "as C01"},
+                harnesses=[H("c12_direct_4", timeout=1800, rules=STORE_RULES), H("c12_direct_2", timeout=1800, rules=STORE_RULES),
+                           H("c12_shape_6", timeout=1800, rules=STORE_RULES, covers=["a non-empty hint file existed"]),
+                           H("c12_shape_5", tier="thorough", timeout=1800, rules=STORE_RULES, covers=["a non-empty hint file existed"]),
+                           H("c12_shape_2", tier="thorough", timeout=2400, mem_gb=28, rules=STORE_RULES, covers=["a non-empty hint file existed"]),
+                           H("c12_shape_4", tier="thorough", timeout=2400, mem_gb=28, rules=STORE_RULES, covers=["a non-empty hint file existed"])],
+                bounds={"shapes": SHAPES_NOTE + "; after the shape the index is rebuilt twice by the real rebuild_storage, as is and with every *.hint unlinked, and both pool keys are resolved through both; c12_direct_*: after every step every hint entry is checked against the data file of its id (shape 4: a merge rolling over into several output files)", "outside": "as C01"},
                 assumptions=STORE_ASSUME),
     "C13": dict(crate="store", title="Compaction actually reclaims space and never grows the store (REDUCED: a merge never increases the total data size)",
                 harnesses=_shapes("c14", [2, 3, 4, 5], tier_of=lambda i: "quick" if i in (2, 4) else "thorough"),
@@ -162,26 +145,39 @@ PROPS.update({
                 bounds={"shapes": SHAPES_NOTE + "; after every step the real LogStatistics of every file are compared with ground truth computed by the harness from the file bytes and the real index; counter arithmetic is overflow-checked by Kani", "outside": "as C01"},
                 assumptions=STORE_ASSUME),
     "C03": dict(crate="store", title="A process crash at any instant loses no acknowledged write and corrupts nothing",
-                harnesses=_kills("c03_b", range(0, 11), quick=(1, 3, 5, 7)) + _kills("c03_c", range(4, 27), quick=(10, 12, 14, 16, 18)) + _kills("c03_a", range(6, 29), quick=(12, 16, 20, 24)) + _kills("c03_d", range(8, 27), quick=(20, 21)),
+                harnesses=_kills("c03_b", range(0, 11), quick=(3, 5)) + _kills("c03_c", range(4, 27), quick=(12, 16)) + _kills("c03_a", range(6, 29), quick=(16,)) + _kills("c03_d", range(8, 27), quick=(21,)),
                 bounds={"shapes": "A: two values on disk; open, del a, merge of everything, put b. B: empty directory, rollover on every write; put a, put b, del a. C: two values on disk, merge rolling over into several outputs. D: value in an older file, its tombstone in a newer one, merge of both. One harness instance per CONCRETE kill point k (the directory is snapshotted before file-system call number k); thorough spans every call of the run, quick a subset inside the merge / rollover windows; SYMBOLIC: every value byte. After the run the directory as of the kill is installed and the real rebuild_storage is run on it", "outside": "a second kill during the recovery after the first; longer workloads"},
                 assumptions=STORE_ASSUME + ["process-kill failure model: the page cache survives, the directory is exactly the effect of the prefix of calls"]),
     "C09": dict(crate="store", title="With sync=always an acknowledged write survives power loss, merges included",
-                harnesses=_kills("c09_b", range(2, 14), quick=(3, 5, 7)) + _kills("c09_c", range(6, 31, 2), quick=(10, 12, 14, 16, 18, 20)) + _kills("c09_a", range(10, 33, 2), quick=(14, 18, 22)),
+                harnesses=_kills("c09_b", range(2, 14), quick=(5, 7)) + _kills("c09_c", range(6, 31, 2), quick=(12, 16)) + _kills("c09_a", range(10, 33, 2), quick=(18, 22)),
                 bounds={"shapes": "as C03 with sync=always; additionally SYMBOLIC per file: the surviving length, anywhere between the length at its last completed fsync and its written length; creations and removals issued persist", "outside": "directory-entry durability (the property's failure model makes creations/removals persistent)"},
                 assumptions=STORE_ASSUME),
     "C20": dict(crate="store", title="A failed disk operation is reported and leaves the store consistent",
-                harnesses=[H("c20_fault_a", timeout=2400, rules=STORE_RULES, covers=["a file creation failed", "a write failed"]),
-                           H("c20_fault_b", timeout=2400, rules=STORE_RULES, covers=["an unlink of the merge failed"]),
-                           H("c20_fault_sync_a", tier="thorough", timeout=2400, rules=STORE_RULES)],
-                bounds={"shapes": "A: rollover on every write; put a, put b, del a, put a. B: values on disk; del a, merge of everything, put b. SYMBOLIC: the failing call over every file-system call after open (create, write, fsync, unlink, stat, open, mmap, read), the failure mode (error without effect / short write of a symbolic non-empty strict prefix followed by an error), every value byte. Followed by a restart", "outside": "faults during the initial recovery; more than one fault; entries larger than the write buffer"},
+                harnesses=[H("c20_m0_k00", timeout=900, rules=STORE_RULES), H("c20_m0_k01", timeout=900, rules=STORE_RULES), H("c20_m0w_k00", timeout=900, rules=STORE_RULES)]
+                + [H("c20_m1_k%02d" % k, tier="thorough", timeout=2400, mem_gb=24, rules=STORE_RULES, covers=["the fault was injected"]) for k in range(0, 4)]
+                + [H("c20_m1w_k%02d" % k, tier="thorough", timeout=2400, mem_gb=24, rules=STORE_RULES, covers=["the fault was injected"]) for k in (0, 2)]
+                + [H("c20_m2_k%02d" % k, tier="thorough", timeout=2400, mem_gb=24, rules=STORE_RULES) for k in range(0, 16)]
+                + [H("c20_a_k%02d" % k, tier="thorough", timeout=3600, mem_gb=28, rules=STORE_RULES) for k in range(0, 8)]
+                + [H("c20_b_k%02d" % k, tier="thorough", timeout=3600, mem_gb=28, rules=STORE_RULES) for k in range(0, 18)],
+                bounds={"shapes": "M0 (quick): empty directory, rollover on every write; put a with the fault at its write / at the creation of the next file / as a short write, then a fault-free put b read back in-process. M1: put a, put b with reads after each and a restart. M2: two values on disk; merge of everything, put b, restart. A: rollover on every write; put a, put b, del a, put a. B: values on disk; del a, merge of everything, put b (A, B: thorough only - an injected error travels through niche-encoded Results in the real code whose discriminant CBMC does not fold, so every later step is explored twice; 25+ min and > 14 GB per instance). One harness instance per CONCRETE failing call k (counted after the open: create, write, fsync, unlink, stat, open, mmap, read - whatever the k-th call is) and failure mode (error without effect; for writes also: short write of 3 bytes, then an error); SYMBOLIC: every value byte. Followed by a restart", "outside": "faults during the initial recovery; more than one fault; entries larger than the write buffer"},
                 assumptions=STORE_ASSUME),
     "C17": dict(crate="store", title="A closed store rejects all use (REDUCED: closed-handle clause only)",
                 harnesses=[H("c17_closed", timeout=1500, rules=STORE_RULES)],
                 bounds={"scope": "after Handle::close (what Drop for Bitcask calls) a SYMBOLIC choice among put/delete/get/merge/sync and the three KeyValueStorage methods returns Error::Closed and issues no file-system call; reopening continues with id max+1 and unchanged contents", "outside": "prompt exit of the background thread, thread/descriptor accumulation, wake-up from a long timer: tokio runtime, broadcast channel and OS threads cannot be encoded"},
                 assumptions=STORE_ASSUME),
     "C18": dict(crate="store", title="Background merge and sync follow the configured policy (REDUCED: decision predicates only)",
-                harnesses=[H("c18_can_merge", timeout=1500, covers=["a merge is due inside the window", "no trigger exceeded under policy always"]),
+                harnesses=[H("c18_can_merge", timeout=1500, covers=["a merge is due in the last hour of the window"]),
                            H("c18_selection", timeout=1500, covers=["an older file is merged while the newest is not"])],
-                bounds={"scope": "Context::can_merge over <= 2 files with SYMBOLIC counters (<= 2^40), symbolic triggers in [0,1] x u64, symbolic policy and clock hour; Context::fileids_to_merge over 3 files with symbolic counters, lengths and thresholds", "outside": "that a merge/sync actually happens within interval +- jitter: merge_on_interval / sync_on_interval are async code over tokio timers and rand"},
+                bounds={"scope": "Context::can_merge: SYMBOLIC policy, window start/end, clock hour, dead-bytes trigger, dead bytes; enumerated live/dead counts 0..3 x 0..3 and fragmentation trigger {0,.25,.5,.75,1}. Context::fileids_to_merge over 3 files: SYMBOLIC dead bytes, file lengths, dead-bytes and small-file thresholds; concrete key counts, fragmentation threshold {0,.4,1}", "outside": "that a merge/sync actually happens within interval +- jitter: merge_on_interval / sync_on_interval are async code over tokio timers and rand"},
                 assumptions=STORE_ASSUME),
+    "C04": dict(crate="store", title="Concurrent gets, sets and deletes are linearizable and never panic or hang (REDUCED: sequentialised writer || reader)",
+                harnesses=[H("c04_stale_map", timeout=900, rules=STORE_RULES),
+                           H("c04_put_k00", timeout=1500, rules=STORE_RULES, covers=["the probe ran inside the operation"]),
+                           H("c04_put_k01", tier="thorough", timeout=1500, rules=STORE_RULES),
+                           H("c04_del_k00", timeout=1500, rules=STORE_RULES, covers=["the probe ran inside the operation"]),
+                           H("c04_del_k01", tier="thorough", timeout=1500, rules=STORE_RULES)]
+                + [H("c04_merge_k%02d" % k, tier=("quick" if k in (6, 8, 10) else "thorough"), timeout=1800, rules=STORE_RULES) for k in (2, 4, 6, 7, 8, 9, 10, 11, 12, 13, 14, 15, 16)],
+                bounds={"scope": "(i) stale map: a reader's mapping taken at a SYMBOLIC length strictly inside a record (between two write calls of one append); once the record is complete and indexed the real LogDir::read must return it. (ii) probe: two values on disk, the reader has read them (old maps); ONE writer-side operation (put / delete / merge of everything) runs and, before file-system call number k of that operation (one harness instance per k), a real Reader::get of both keys must return the value before or after the operation, never an error or a panic. Symbolic: value bytes, the partial length",
+                        "outside": "real thread interleavings inside DashMap/parking_lot/crossbeam, preemption between two index operations without a file-system call in between, two racing readers, more than one in-flight writer-side operation, memory ordering, termination of the spin loop, the reader pool under panics"},
+                assumptions=STORE_ASSUME + ["sequentialisation: preemption matters only at file-system calls; library internals are atomic"]),
 })
